@@ -171,6 +171,24 @@ pub fn drive(a: &Args) {
         }
         list_op(&mut out, &l);
     }
+    // every interval between two landmark code points (ends of narrower character types, the surrogate block, the
+    // replacement character, the planes): unary observations, membership around both ends, a few binary operations
+    let mut lm: Vec<Iv> = vec![];
+    for (i, &lo) in LANDMARKS.iter().enumerate() {
+        for &hi in &LANDMARKS[i..] {
+            lm.push(Iv(lo, hi));
+        }
+    }
+    for (k, &c) in lm.iter().enumerate() {
+        unary_ops(&mut out, c);
+        for x in [c.0.saturating_sub(1), c.0, c.1, (c.1 + 1).min(MAX_CHAR)] {
+            point_ops(&mut out, c, x);
+        }
+        for j in 0..4usize {
+            let d = lm[(k * 7 + j * 53 + 11) % lm.len()];
+            pair_ops(&mut out, c, d);
+        }
+    }
     let n = out.finish();
     println!("{{\"family\":\"charsets\",\"events\":{}}}", n);
 }
